@@ -102,7 +102,7 @@ fn sheet(name: String, n_sst: u32, n_styles: u32) -> impl Strategy<Value = BbShe
     )
 }
 
-fn case_strategy() -> impl Strategy<Value = Case> {
+pub fn case_strategy() -> impl Strategy<Value = Case> {
     (proptest::collection::vec((text(), 0u8..3, proptest::option::weighted(0.2, "[a-z]{1,4}")), 0..5), 1usize..3).prop_flat_map(|(sst, n)| {
         let n_sst = sst.len() as u32;
         let names = ["Sheet1", "Données 2"];
